@@ -18,8 +18,9 @@ predicates of Model/IsoDep.v (and to the repaired ATS parse of Model/TagAct.v).
 
 Float arithmetic (FWT = 4096 / 13.56E6 * 2**FWI, int(1/fwt)) is translated to exact rationals (Coq Q,
 Qfloor); that Python's double rounding does not change int(1/fwt) for FWI 0..14 is checked by the
-correspondence run over every FWI, not by the bridge.  Not translated: timeouts (self.delta_fwt,
-timeout = self.fwt + self.delta_fwt, wtx_timeout = (data[1] & 0x3F) * self.fwt) - time is not modelled.
+correspondence run over every FWI, not by the bridge.  Timeouts (self.delta_fwt, timeout = self.fwt +
+self.delta_fwt, wtx_timeout = (data[1] & 0x3F) * self.fwt) are translated as rationals too; the bridge ties
+wtx_timeout to the model's blk_timeout (the multiple of fwt granted with an S(WTX) response).
 
   E ::= int | float with integral value | v | self.a | self.clf.a | target.a | x[k] | x[a:b] | x[a:] | len(E)
       | E + E | E - E | E * E | E % E | E & E | E | E | E >> E | ~E | E / E | k ** E | E cmp E | E and E
@@ -121,6 +122,8 @@ class Tr(object):
             if Q in (a[1], b[1]):
                 if op is ast.Mult:
                     return '(Qmult %s %s)' % (self.toq(a), self.toq(b)), Q
+                if op is ast.Add:
+                    return '(Qplus %s %s)' % (self.toq(a), self.toq(b)), Q
                 raise Bad('rational operator ' + op.__name__)
             zops = {ast.Add: 'Z.add', ast.Sub: 'Z.sub', ast.Mult: 'Z.mul', ast.Mod: 'Z.modulo', ast.BitAnd: 'Z.land',
                     ast.BitOr: 'Z.lor', ast.RShift: 'Z.shiftr', ast.LShift: 'Z.shiftl', ast.FloorDiv: 'Z.div'}
@@ -407,7 +410,7 @@ def is_exchange(s, timeout):
         ast.unparse(s.value) == 'self.clf.exchange(data, %s)' % timeout
 
 
-ENV = {'self.pni': 'pni', 'self.miu': 'miu', 'self.n_retry_nak': 'n_retry_nak', 'self.n_retry_ack': 'n_retry_ack',
+ENV = {'self.fwt': 'fwt', 'self.delta_fwt': 'delta_fwt', 'self.pni': 'pni', 'self.miu': 'miu', 'self.n_retry_nak': 'n_retry_nak', 'self.n_retry_ack': 'n_retry_ack',
        'command': 'command', 'n_extra': 'n_extra', 'self.max_extra_blocks': 'max_extra_blocks', 'offset': 'offset', 'more': 'more', 'pfb': 'pfb', 'data': 'data', 'i': 'i', 'response': 'response'}
 
 
@@ -448,6 +451,7 @@ def exchange_kernels(fn, consts):
         k('gen_%s_wtx_short' % where, wb[0].test, [('data', L)], B)
         extra(wb[1], wb[2], where, lambda s_: raises_clf(s_, 'ProtocolError'))
         want(isinstance(wb[3], ast.Assign) and ast.unparse(wb[3].targets[0]) == 'wtx_timeout', where + ' wtx_timeout')
+        k('gen_%s_wtx_timeout' % where, wb[3].value, [('data', L), ('fwt', Q)], Q)
         want(is_exchange(wb[4], 'wtx_timeout'), where + ' WTX exchange (the S(WTX) block is echoed)')
         want(isinstance(wb[5], ast.If) and not wb[5].orelse and len(wb[5].body) == 1 and
              raises_clf(wb[5].body[0], 'TransmissionError') and ast.unparse(wb[5].test) == ast.unparse(b[1].test),
@@ -484,7 +488,10 @@ def exchange_kernels(fn, consts):
     body = [s for s in fn.body if not (isinstance(s, ast.Expr) and isinstance(s.value, ast.Constant))]
     want([a.arg for a in fn.args.args] == ['self', 'command', 'timeout'], 'signature')
     want(len(body) == 6, 'top level statements')
-    want(isinstance(body[0], ast.If) and ast.unparse(body[0].test) == 'timeout is None' and not body[0].orelse, 'default timeout')
+    want(isinstance(body[0], ast.If) and ast.unparse(body[0].test) == 'timeout is None' and not body[0].orelse and
+         len(body[0].body) == 1 and isinstance(body[0].body[0], ast.Assign) and ast.unparse(body[0].body[0].targets[0]) == 'timeout',
+         'default timeout')
+    k('gen_default_timeout', body[0].body[0].value, [('fwt', Q), ('delta_fwt', Q)], Q)
     # presence check
     pc = body[1]
     want(isinstance(pc, ast.If) and ast.unparse(pc.test) == 'command is None' and not pc.orelse, 'presence check')
@@ -589,6 +596,7 @@ def generate(repo):
     out.append(kernel('gen_n_retry_ack', single_assign(ini, 'self.n_retry_ack'), [('fwt', Q)], {'self.fwt': 'fwt'}, Z))
     out.append(kernel('gen_n_retry_nak', single_assign(ini, 'self.n_retry_nak'), [('n_retry_ack', Z)],
                       {'self.n_retry_ack': 'n_retry_ack'}, Z))
+    out.append(kernel('gen_delta_fwt', single_assign(ini, 'self.delta_fwt'), [], {}, Q))
     out.append(kernel('gen_max_extra_blocks', single_assign(ini, 'self.max_extra_blocks'), [], {}, Z))
     # the constructors
     skip = ['self._extended_length_support']
